@@ -357,35 +357,42 @@ def shouldPreserve (cfg : Cfg) (src : Src) (s : St) (kt : Key) : Bool :=
 
 def preservingPrefix : Str := "# Preserving old file ".toList
 
+/-- first half of `do_copyfile`: what happens to an existing destination / the missing directory.
+Result: state, the value of the local `outdir`, and whether the function returns `False` here -/
+def copyPrepare (cfg : Cfg) (src : Src) (toFile : Str) (mk : Option Str) (s : St) : St × Str × Bool :=
+  let outdir0 := dirname toFile
+  let kt := keyOf cfg.cwd toFile
+  if existsF s kt then
+    if !isFileF s kt then (s.fail .meson, outdir0, true)
+    else if shouldPreserve cfg src s kt then
+      (({ s with preserved := s.preserved + 1 }).logLine (preservingPrefix ++ toFile), outdir0, true)
+    else (remove cfg kt s, outdir0, false)
+  else match mk with
+    | some od => (dmMakedirs cfg od true s, od, false)
+    | none => (s, outdir0, false)
+
+/-- second half of `do_copyfile`: the `shutil.copy*` call chosen by the kind of source -/
+def copyPayload (cfg : Cfg) (fromPath : Str) (src : Src) (toFile outdir : Str) (follow : Option Bool)
+    (s1 : St) : St :=
+  let kt := keyOf cfg.cwd toFile
+  match src with
+  | .linkDangling t =>
+    let kd := keyOf cfg.cwd outdir
+    let dst := if isDirF s1 kd then keyOf cfg.cwd (join outdir (basename fromPath)) else kd
+    putLink cfg dst t s1
+  | .linkFile t m d mt => if follow.getD true then putFile cfg kt m d mt s1 else putLink cfg kt t s1
+  | .linkDir t =>
+    if follow.getD true then (if cfg.dryRun then s1 else s1.fail .os) else putLink cfg kt t s1
+  | .file m d mt => putFile cfg kt m d mt s1
+  | _ => s1
+
 /-- `Installer.do_copyfile`; the Boolean is its return value -/
 def doCopyfile (cfg : Cfg) (fromPath : Str) (src : Src) (toFile : Str) (mk : Option Str)
     (follow : Option Bool) (s : St) : St × Bool :=
-  let outdir0 := dirname toFile
-  let kt := keyOf cfg.cwd toFile
   if !srcCopyable src then (s.fail .meson, false) else
-  let r : St × Str × Bool :=
-    if existsF s kt then
-      if !isFileF s kt then (s.fail .meson, outdir0, true)
-      else if shouldPreserve cfg src s kt then
-        (({ s with preserved := s.preserved + 1 }).logLine (preservingPrefix ++ toFile), outdir0, true)
-      else (remove cfg kt s, outdir0, false)
-    else match mk with
-      | some od => (dmMakedirs cfg od true s, od, false)
-      | none => (s, outdir0, false)
-  let s1 := r.1
-  let outdir := r.2.1
-  if r.2.2 || s1.failed then (s1, false) else
-  let s2 : St :=
-    match src with
-    | .linkDangling t =>
-      let kd := keyOf cfg.cwd outdir
-      let dst := if isDirF s1 kd then keyOf cfg.cwd (join outdir (basename fromPath)) else kd
-      putLink cfg dst t s1
-    | .linkFile t m d mt => if follow.getD true then putFile cfg kt m d mt s1 else putLink cfg kt t s1
-    | .linkDir t =>
-      if follow.getD true then (if cfg.dryRun then s1 else s1.fail .os) else putLink cfg kt t s1
-    | .file m d mt => putFile cfg kt m d mt s1
-    | _ => s1
+  let r := copyPrepare cfg src toFile mk s
+  if r.2.2 || r.1.failed then (r.1, false) else
+  let s2 := copyPayload cfg fromPath src toFile r.2.1 follow r.1
   if s2.failed then (s2, false) else (s2.logLine toFile, true)
 
 /-- `Installer.do_symlink` (the `OSError` of `os.symlink` is caught and reported once) -/
